@@ -720,7 +720,7 @@ pub fn run(ctx: &Ctx) -> i32 {
         ctx.tier,
         ctx.seed,
         "exploration",
-        "sets of 1..4 generated files (valid / one planted semantic fault / syntax error / lexical error, disjoint names) given to `ironplcc check` as explicit files in canonical, reversed and rotated order, as a flat directory, and as directory + extra valid file in both orders; `echo` and `tokenize` on the same files; fixed cases: missing path, missing path + good file, empty directory, no arguments, unreadable file; invocations with 255 / 256 / 257 / 512 diagnostics. Oracle per invocation: a normal exit (any status but the panic status 101, no death by signal); exit 0 <=> stdout has the line OK <=> no error[P....] on stderr; every code is listed in problem-codes.csv; same exit for every argument order; directory == file list (exit and multiset of (code, basename, line, column)); echo / tokenize exit 0 <=> every file parses / tokenizes in-process. Non-trivial: >= 2 files, a directory, or a faulty file; distinct by invocation.",
+        "sets of 1..4 (now and then 8..21) generated files (valid / one planted semantic fault / syntax error / lexical error, disjoint names; an eighth of the sets saved as Windows-1252 with a comment of 1..1000 non-ASCII characters in front of every file) given to `ironplcc check` as explicit files in canonical, reversed and rotated order, as a flat directory, and as directory + extra valid file in both orders; `echo` and `tokenize` on the same files; fixed cases: missing path, missing path + good file, empty directory, no arguments, unreadable file; invocations with 255 / 256 / 257 / 512 diagnostics. Oracle per invocation: a normal exit (any status but the panic status 101, no death by signal); exit 0 <=> stdout has the line OK <=> no error[P....] on stderr; every code is listed in problem-codes.csv; same exit for every argument order; directory == file list (exit and multiset of (code, basename, line, column)); echo / tokenize exit 0 <=> every file parses / tokenizes in-process. Non-trivial: >= 2 files, a directory, or a faulty file; distinct by invocation.",
     );
     let gates = ctx.gates_for("C13");
     let off = gates.off_list();
